@@ -58,6 +58,8 @@ def c10_specs(ctx):
             sp['epilogue'] = (sp['epilogue'] or '') + '\n// 100%% sure\nvar pct = "%d%%\\n"\n/* %% */\n'
         if rnd.random() < 0.3:
             sp['prologue'] = '\npackage main\n// %token FAKE in the prologue { \n/* %% */\nimport "fmt"\n'
+        if rnd.random() < 0.25:
+            sp['prologue2'] = '\nvar helper2 = 2 // second block, after the union\n'
         if rnd.random() < 0.3:
             sp['union'] = '\n v0 int // { } balanced\n v1 int\n v2 int\n n struct { a int }\n'
         specs.append(('r%d' % i, sp))
